@@ -169,6 +169,9 @@ fn run_case(case: &Case) -> Result<(bool, Vec<&'static str>), Failure> {
             if fl.tie_zero_and_older {
                 labels.push("tie-with-zero-delay-and-older-event");
             }
+            if fl.zero_burst {
+                labels.push("burst-of->=65-events-at-the-current-time");
+            }
             Ok((fl.tie_groups > 0 && fl.tie_zero_and_older, labels))
         }
         Case::Net { bursts } => run_net(bursts),
